@@ -50,6 +50,18 @@ class LEnv:
         if self.ticks > 200000:
             raise Diverges()
 
+    stop_at = None      # (number of the store / lock call, 'sysExit' | 'kbdInt'): a stop request is delivered while that call is in progress
+    calls = 0
+
+    def maybe_stop(self):
+        self.calls += 1
+        if self.stop_at is not None and self.calls == self.stop_at[0]:
+            if self.stop_at[1] == 'sysExit':
+                self.log.append(['stop', 'sysExit', 1])
+                raise SystemExit(1)
+            self.log.append(['stop', 'kbdInt'])
+            raise KeyboardInterrupt()
+
 
 class LStore:
     def __init__(self, env, index):
@@ -59,6 +71,7 @@ class LStore:
         t = self.index[name]
         e = self.env
         e.tick()
+        e.maybe_stop()
         if t in e.known:
             a = True
         elif t in e.nores and t in e.held:
@@ -91,6 +104,7 @@ class LLock:
 
     def get(self):
         self.env.tick()
+        self.env.maybe_stop()
         a = self.env.pop('lock') % 2 == 1
         self.env.log.append(['lock', self.t, a])
         if a:
@@ -143,11 +157,12 @@ def make_tasks(shape, env):
     return tasks
 
 
-def run_real(shape, flags, nr, answers, policy=None):
+def run_real(shape, flags, nr, answers, policy=None, stop_at=None):
     """event list of the real execution_loop; flags = (keep_going, keep_failed, aggressive_unload, hook_exits).
     With a policy the answers are drawn while the loop runs and returned in `answers` (the list is extended in place)."""
     from jugverif import jugenv
     env = LEnv(answers, policy)
+    env.stop_at = stop_at
     del jug.task.alltasks[:]
     jug.hooks.reset_all_hooks()
     tasks = make_tasks(shape, env)
@@ -308,3 +323,46 @@ def judge_real_trace(run, drv, c, real):
                  % (c['deps'], c['flags'], c['nr'], c['answers'][:80], ' and '.join(what), evs[:120]), {'kind': 'loop', **c})
         return False
     return True
+
+
+def stop_injection_family(run, drv, rng, n):
+    """a stop request (SIGTERM turned into SystemExit, Ctrl-C) delivered while the worker is inside a store or lock call - looking at a task, taking
+    a lock, probing a task somebody else holds, between tasks: the request must end the loop (nothing is begun or stored afterwards, a held lock is
+    released, the exception leaves execution_loop). Judged by the worker-local transition function on the recorded events."""
+    if drv is None:
+        return
+    done = 0
+    for _ in range(n * 3):
+        if done >= n:
+            break
+        c = gen_case(rng)
+        if not c['deps']:
+            continue
+        pol = c.pop('policy', None) or (rng.choice([0.0, 0.2]), rng.choice([1.0, 0.6, 0.3]), 0.9, 0.0)
+        c['flags'][3] = False
+        # how many store / lock calls does the undisturbed run make?
+        env_probe = list(c['answers'])
+        real0 = run_real(c['deps'], c['flags'], c['nr'], env_probe, (rng,) + tuple(pol))
+        ncalls = sum(1 for e in real0 if e[0] in ('canLoad', 'lock'))
+        if ncalls == 0:
+            continue
+        answers = list(env_probe)
+        k = rng.randrange(1, ncalls + 1)
+        kind = rng.choice(['sysExit', 'kbdInt'])
+        real = run_real(c['deps'], c['flags'], c['nr'], list(answers), None, stop_at=(k, kind))
+        done += 1
+        run.case(('loop-stop', len(c['deps']), k, kind, tuple(answers[:30])), nontrivial=True)
+        run.count('loop_stop_injections')
+        rp = {'kind': 'loop-stop', 'deps': c['deps'], 'flags': c['flags'], 'nr': c['nr'], 'answers': answers, 'stop_at': [k, kind]}
+        stopped = [i for i, e in enumerate(real) if e[0] == 'stop']
+        if not stopped:
+            continue
+        after = real[stopped[0] + 1:]
+        ends_ok = bool(real) and real[-1][0] == 'raise' and real[-1][1] == kind
+        later = [e for e in after if e[0] in ('begin', 'dump', 'lock', 'endOk', 'preExec')]
+        ans = drv.ask({'op': 'looptrace', 'deps': c['deps'], 'flags': c['flags'], 'events': real})
+        if later or not ends_ok or not ans.get('conforms', False):
+            run.fail('stop-request-swallowed', 'a stop request (%s) delivered during store/lock call number %d of execution_loop over the task list %r (flags %r, answers %r): %s; events after the request: %r'
+                     % ('SystemExit from the SIGTERM handler' if kind == 'sysExit' else 'KeyboardInterrupt', k, c['deps'], c['flags'], answers[:40],
+                        'the worker goes on (%s)' % later[:4] if later else ('the loop does not end with the exception: last event %r' % (real[-1],) if not ends_ok else 'the events break the per-task protocol'),
+                        after[:12]), rp)
